@@ -428,7 +428,8 @@ func runC19(c *Ctx) *Violation {
 // runC19Gob: F5 - Gob/NewMapGob and Copy round trips, gob truncation.
 func runC19Gob(c *Ctx) *Violation {
 	t := c.T
-	doc := genJSONDoc(t, JSONOpts{WS: false})
+	single := t.Draw(2) == 1 // single-key objects: the gob bytes are the same on every run
+	doc := genJSONDoc(t, JSONOpts{WS: false, SingleKey: single, MaxDepth: 4})
 	var m mxj.Map
 	var err error
 	if v := safely(c, "gen-decode", func() { m, err = mxj.NewMapJson([]byte(doc)) }); v != nil || err != nil {
@@ -467,8 +468,10 @@ func runC19Gob(c *Ctx) *Violation {
 		return &Violation{"C19.f5-gob", fmt.Sprintf("gob round trip differs:\n back: %s\n orig: %s", clip(Canon(back), 400), clip(before, 400))}
 	}
 	c.Event("f5 %x", uint64(Digest(back)))
-	// every truncation of the gob bytes: an error, never a panic
-	for cut := 1; cut < len(g); cut++ {
+	// every truncation of the gob bytes: an error, never a panic.  Only for values
+	// whose gob encoding does not depend on encoding/gob's map walk, so that the
+	// failing cut is replayable.
+	for cut := 1; single && cut < len(g); cut++ {
 		c.Eval()
 		var e2 error
 		if v := safely(c, "NewMapGob(truncated)", func() { _, e2 = mxj.NewMapGob(g[:cut]) }); v != nil {
